@@ -321,3 +321,15 @@ def _quadrant_axioms(c, v, s, co, lo, hi):
                           z3.Implies(z3.Or(v > p / 2, v < -p / 2), co < 0),
                           z3.Implies(v == p / 2, z3.And(s == 1, co == 0)),
                           z3.Implies(v == -p / 2, z3.And(s == -1, co == 0))]
+        # A3: sound Taylor enclosures coupling the value to the pair (valid for every real argument):
+        #   |sin x| <= |x|, sin x >= x - x^3/6 (x >= 0), 1 - x^2/2 <= cos x <= 1 - x^2/2 + x^4/24,
+        # stated in v (near 0) and in u = pi - |v| (near a half turn)
+        def enc(x, sx, cx):
+            return [z3.Implies(x >= 0, z3.And(sx <= x, sx >= x - x * x * x / 6)),
+                    z3.Implies(x <= 0, z3.And(sx >= x, sx <= x - x * x * x / 6)),
+                    cx >= 1 - x * x / 2, cx <= 1 - x * x / 2 + x * x * x * x / 24]
+        c.assumptions += enc(v, s, co)
+        if hi > 2:
+            c.assumptions += enc(p - v, s, -co)
+        if lo < -2:
+            c.assumptions += enc(p + v, -s, -co)
